@@ -87,14 +87,22 @@ PLANS["C07"] = Plan(
 PL = "moptipyapps.ttp.plan_length"
 GE = "moptipyapps.ttp.game_encoding"
 PLANS["C08"] = Plan(
-    "C08", "other",
-    functions=[PL + ":game_plan_length", PL + ":GamePlanLength.__init__"],
+    "C08", "proof",
+    functions=[PL + ":game_plan_length", PL + ":GamePlanLength.__init__", PL + ":GamePlanLength.evaluate",
+               PL + ":GamePlanLength.upper_bound", PL + ":GamePlanLength.lower_bound"],
+    lemmas=["loc_range", "team_bound", "total_bound", "bye_prefix", "bye_other_team", "bye_walk", "bye_increases", "bye_clause"],
     bounded=[bounded.ttp_plan.harness_c08],
     explanation="proved: game_plan_length equals the recursive tournament-walk specification (location per day, away venue, "
                 "stay/return for home games, bye penalty, return leg) for every plan with entries in -n..n and every "
-                "non-negative distance matrix; result >= 0; indices in range. bounded: declared upper bound and the bye clause "
-                "on all positions of sampled plans; optimum clause exhaustive over all 12^6 consistent 4-team plans x 7 instances",
-    assumptions=["length accumulator treated as a mathematical integer", "bye clause (Lipschitz lemma over the walk) not proved: bounded"],
+                "non-negative distance matrix; indices in range; GamePlanLength.__init__ sets bye_penalty = 2 * max distance "
+                "+ 1; GamePlanLength.evaluate lies in [lower_bound(), upper_bound()] = [0, n * days * bye_penalty] (induction "
+                "over days and teams: a game day costs at most M and leaves M + 1 of its allowance for the trip home); "
+                "bye clause: replacing any game of any team on any day by a day off strictly increases the walk "
+                "(relational lemmas over the two plans, induction over days and teams) - all for every n, every number of "
+                "days, every matrix. bounded: the same clauses on sampled plans with the real objects; optimum clause "
+                "exhaustive over all 12^6 consistent 4-team plans x 7 instances (a finite statement, decided by enumeration)",
+    assumptions=["length accumulator treated as a mathematical integer (the proved upper bound n*days*(2*max+1) is far below "
+                 "2^63 for every instance the constructor accepts)"],
 )
 PLANS["C15"] = Plan(
     "C15", "other",
@@ -206,12 +214,21 @@ PLANS["C09"] = Plan(
     "C09", "other",
     functions=[QO + ":_evaluate"],
     bounded=[bounded.qap.harness],
+    extra=[contracts.qap.prove_c09_bounds, leancheck.lean_prover(["A4.lean"], "C09")],
     explanation="proved: _evaluate == sum_{i,j} flows[i,j] * distances[x[i],x[j]] (recursive spec qsum/qrow) for every pair of "
                 "non-negative matrices, every index vector in range and every storage dtype up to int64/uint32, all "
-                "intermediate values within int64. bounded: QAPLIB text loading under arbitrary wrapping (incl. lines straddling "
+                "intermediate values within int64; trivial_bounds (whole-array numpy code, read from /repo) has exactly the "
+                "operation tree lower = sum(sort(flows) * reverse(sort(distances))), upper = sum(sort(flows) * "
+                "sort(distances)) in uint64 buffers; that these sums bound the objective of every assignment is the "
+                "rearrangement inequality A4 (lean/A4.lean, re-checked by Lean 4 + Mathlib in the thorough tier). "
+                "bounded: QAPLIB text loading under arbitrary wrapping (incl. lines straddling "
                 "the two matrices), value within [lower_bound, upper_bound] for all n! permutations, n <= 6",
-    assumptions=["A5 rearrangement inequality for trivial_bounds (numpy sort/multiply/sum, external): bounded only",
-                 "numba keeps the int64 accumulator for unsigned element types (typing observed in the design round)"],
+    assumptions=["A4 (lean/A4.lean: qap_upper, qap_lower, qap_flatten, qap_bounds - the rearrangement inequality and the link "
+                 "between the double sum and the flattened matrices via the pair bijection (i, j) -> (p(i), p(j))) is accepted "
+                 "by Lean 4 + Mathlib without sorry; re-checked in the thorough tier only (cold start of Mathlib)",
+                 "numpy semantics of flatten / sort / [::-1] / multiply / sum (external)",
+                 "numba keeps the int64 accumulator for unsigned element types (typing observed in the design round)",
+                 "QAPLIB parser (string processing): bounded only"],
 )
 
 PLANS["C18"] = Plan(
@@ -451,10 +468,14 @@ META = {
             "note": "kernels not yet under contract are listed in the evidence 'assumptions' (controllers, ode helpers, "
                     "swap_distance: see DESIGN.md); E1/E2 assumed for the pre-conditions",
             "technique": "contract-based deductive verification (per-subscript bounds VCs under loop invariants; z3/cvc5)"},
-    "C08": {"text": "game_plan_length proved equal to the tournament-walk model for all plans/matrices; bounds, bye clause and "
-                    "the four-team optimum decided by bounded/exhaustive enumeration with the real kernels",
-            "note": "level 'other': proof + exhaustive enumeration (7 x 12^6 plans) + sampling for the bye clause",
-            "technique": "contract-based deductive verification (recursive spec of the walk) + exhaustive bounded enumeration"},
+    "C08": {"text": "game_plan_length proved equal to the tournament-walk model, within its declared bounds, and strictly "
+                    "increased by every game-to-bye replacement, for all plans / matrices / sizes; the four-team optimum "
+                    "clause (finite) decided by exhaustive enumeration with the real kernel",
+            "note": "level 'proof' for the three universally quantified clauses (kernel contract + bye penalty contract + "
+                    "inductive lemmas over the walk specification); the optimum clause is a statement about 7 fixed instances "
+                    "and is decided by enumerating all 12^6 consistent plans of each (bounded harness, labelled exhaustive)",
+            "technique": "contract-based deductive verification (recursive spec of the walk, relational lemmas by induction) "
+                         "+ exhaustive enumeration for the finite optimum clause"},
     "C15": {"text": "map_games proved: earliest-free-day placement, mutual consistency, no self-play, range, exactly two cells "
                     "written per game; search-space composition enumerated for all n <= 24 (thorough 40), rounds <= 7 (9)",
             "note": "level 'other': proof for the decoder + exhaustive enumeration of the two-parameter generator",
